@@ -267,12 +267,15 @@ func (a *AnySchema) checkAndConvert(data any) (any, error) {
 		return result, nil
 	case reflect.Map:
 		result := make(map[any]any, t.Len())
-		for _, k := range t.MapKeys() {
+		// Iterate instead of looking the keys up again: a NaN key is never found by MapIndex.
+		iter := t.MapRange()
+		for iter.Next() {
+			k := iter.Key()
 			key, err := a.checkAndConvert(k.Interface())
 			if err != nil {
 				return nil, ConstraintErrorAddPathSegment(err, fmt.Sprintf("{%v}", k))
 			}
-			v := t.MapIndex(k)
+			v := iter.Value()
 			value, err := a.checkAndConvert(v.Interface())
 			if err != nil {
 				return nil, ConstraintErrorAddPathSegment(err, fmt.Sprintf("[%v]", key))
